@@ -11,7 +11,14 @@ mod sys {
         pub fn mmap(addr: *mut c_void, len: usize, prot: i32, flags: i32, fd: i32, off: i64) -> *mut c_void;
         pub fn mprotect(addr: *mut c_void, len: usize, prot: i32) -> i32;
         pub fn munmap(addr: *mut c_void, len: usize) -> i32;
+        pub fn memfd_create(name: *const u8, flags: u32) -> i32;
+        pub fn ftruncate(fd: i32, len: i64) -> i32;
+        pub fn write(fd: i32, buf: *const c_void, n: usize) -> isize;
+        pub fn close(fd: i32) -> i32;
     }
+    pub const MAP_SHARED: i32 = 0x01;
+    pub const MAP_FIXED: i32 = 0x10;
+    pub const MAP_NORESERVE: i32 = 0x4000;
     pub const PROT_NONE: i32 = 0;
     pub const PROT_READ: i32 = 1;
     pub const PROT_WRITE: i32 = 2;
@@ -83,8 +90,9 @@ impl GuardBuf {
             let end = base.add(maplen - PAGE);
             core::ptr::write_bytes(first, CANARY, maplen - 2 * PAGE);
             let (ptr, lo, hi) = match place {
-                Place::Tail => (end.sub(len), 0, 0),
-                Place::Head => (first, 0, 0),
+                // the mapped bytes on the near side of the slice are canaries as well
+                Place::Tail => (end.sub(len), 64, 0),
+                Place::Head => (first, 0, 64),
                 Place::Interior(off) => (first.add(off), off, 64),
             };
             core::ptr::copy_nonoverlapping(content.as_ptr(), ptr, len);
@@ -130,6 +138,74 @@ impl Drop for GuardBuf {
             unsafe {
                 sys::munmap(self.base as *mut _, self.maplen);
             }
+        }
+    }
+}
+
+/// A read-only window of `total` bytes that repeats one `pattern` (a whole number of pages) over
+/// and over: one small in-memory file mapped again and again at consecutive addresses, so a slice
+/// of many GiB costs one pattern of physical memory. Used to pass a single `update()` call more
+/// than 2^32 bytes (C17). Followed by a PROT_NONE page.
+#[cfg(not(miri))]
+pub struct RingWindow {
+    base: *mut u8,
+    maplen: usize,
+    total: usize,
+}
+
+#[cfg(not(miri))]
+impl RingWindow {
+    pub fn new(pattern: &[u8], total: usize) -> Result<RingWindow, String> {
+        let period = pattern.len();
+        assert!(period > 0 && period % PAGE == 0);
+        let n = (total + period - 1) / period;
+        let maplen = n * period + PAGE;
+        unsafe {
+            let fd = sys::memfd_create(b"ccv-ring\0".as_ptr(), 0);
+            if fd < 0 {
+                return Err("memfd_create failed".into());
+            }
+            if sys::ftruncate(fd, period as i64) != 0 {
+                sys::close(fd);
+                return Err("ftruncate failed".into());
+            }
+            let mut off = 0;
+            while off < period {
+                let w = sys::write(fd, pattern[off..].as_ptr() as *const _, period - off);
+                if w <= 0 {
+                    sys::close(fd);
+                    return Err("write to memfd failed".into());
+                }
+                off += w as usize;
+            }
+            let base = sys::mmap(core::ptr::null_mut(), maplen, sys::PROT_NONE, sys::MAP_PRIVATE_ANON | sys::MAP_NORESERVE, -1, 0) as *mut u8;
+            if base.is_null() || base as isize == -1 {
+                sys::close(fd);
+                return Err("reserving the address range failed".into());
+            }
+            for i in 0..n {
+                let at = base.add(i * period);
+                let p = sys::mmap(at as *mut _, period, sys::PROT_READ, sys::MAP_SHARED | sys::MAP_FIXED, fd, 0) as *mut u8;
+                if p != at {
+                    sys::munmap(base as *mut _, maplen);
+                    sys::close(fd);
+                    return Err(format!("mapping copy {} of the pattern failed", i));
+                }
+            }
+            sys::close(fd);
+            Ok(RingWindow { base, maplen, total })
+        }
+    }
+    pub fn slice(&self) -> &[u8] {
+        unsafe { core::slice::from_raw_parts(self.base, self.total) }
+    }
+}
+
+#[cfg(not(miri))]
+impl Drop for RingWindow {
+    fn drop(&mut self) {
+        unsafe {
+            sys::munmap(self.base as *mut _, self.maplen);
         }
     }
 }
